@@ -13,7 +13,8 @@ RULE = (
     "well, linear -> QF_LIA/QF_UFLIA/QF_AUFLIA/QF_ALIA, arrays only with A-logics, non-linear/quantified -> default only). Each "
     "problem is rebuilt and solved under the default configuration and 3 others. Every returned schedule must be reference-valid; "
     "among definite answers (sat/unsat, no early stop) the feasibility verdict and, for a single objective or weighted mode, the "
-    "optimum must agree. Non-trivial = two configurations differing in >= 2 options both gave a definite answer on a problem "
+    "optimum must agree; a configuration that returned a solution is asked once more on the same solver object and must give the same "
+    "verdict and optimum. Non-trivial = two configurations differing in >= 2 options both gave a definite answer on a problem "
     "with at least one constraint or shared resource; distinct by SHA-1 of (spec, configuration)."
 )
 ASSUMPTIONS = [
